@@ -186,7 +186,8 @@ func c01Gen(r *rand.Rand, tier string, idx int) any {
 	if r.Intn(10) == 0 {
 		n = r.Intn(4)
 	}
-	c.Plan = genScript(r, c.Mode == "vi", n)
+	// numeric arguments stay within the stated bound: at most 4 digit characters per script
+	c.Plan = limitDigits(genScript(r, c.Mode == "vi", n), 4)
 	c.ExitTag = pick(r, []string{"ret", "ret", "ctrl-c", "ctrl-d", "eof", "eio", "eof", "eio"})
 	switch c.ExitTag {
 	case "ret":
@@ -197,10 +198,10 @@ func c01Gen(r *rand.Rand, tier string, idx int) any {
 		c.Exit = steps("\x04")
 	case "eof":
 		// fault after a PRNG-chosen prefix of the script
-		c.Plan = limitDigits(c.Plan[:r.Intn(len(c.Plan)+1)], 5)
+		c.Plan = c.Plan[:r.Intn(len(c.Plan)+1)]
 		c.Exit = []sess.Step{{EOF: true}}
 	case "eio":
-		c.Plan = limitDigits(c.Plan[:r.Intn(len(c.Plan)+1)], 5)
+		c.Plan = c.Plan[:r.Intn(len(c.Plan)+1)]
 		c.Exit = []sess.Step{{EIO: true}}
 	}
 	return c
@@ -314,7 +315,7 @@ func init() {
 		NeedsTerm: true,
 		Rule: "PRNG-determined sessions: mode x inputrc variable settings x history x completer x terminal size x key scripts drawn from every bound sequence of every keymap, words, control bytes, invalid UTF-8, CSI fragments, digit arguments, argument-reading commands; exit by RET/C-c/C-d or by EOF/EIO injected after a random prefix. " +
 			"distinct non-trivial = distinct (command executed, main/local keymap, buffer-shape class, wait kind) tuples observed at input waits",
-		Assumptions: []string{"numeric arguments <= 999", "scripts <= 45 tokens", "hermetic pty + in-process VT emulator answering cursor queries immediately", "a call that is parked waiting for input after the exit ladder counts as 'blocked waiting', not as a violation"},
+		Assumptions: []string{"numeric arguments <= 9999 (at most 4 digit characters are typed per script)", "scripts <= 45 tokens", "hermetic pty + in-process VT emulator answering cursor queries immediately", "a call that is parked waiting for input after the exit ladder counts as 'blocked waiting', not as a violation"},
 		N: func(tier string) int {
 			if tier == "thorough" {
 				return 120000
